@@ -126,6 +126,24 @@ Definition exact_point (e h : expr) (p : list (string * Q)) : bool :=
   | _, _ => true
   end.
 
+(* the second oracle when some output condition is a STRUCTURAL rounding (of itself or of a hint): rounding a constant inside a
+   product of sums moves the value by the rounding error times the other factors ((h + 8823) * 0.0005 at 3 decimals is printed
+   (h + 8823) * 0.001 - every constant within half a unit of the third decimal), which no slack computed from the point alone
+   bounds.  The points then judge the EXACT half: the input conditions and the mid conditions (the conditions of which the
+   outputs are roundings, as the checker found them) have the same truth value at every point; the rounding half is syntactic *)
+Definition msat_b (rho : valuation) (m : mcond) : option bool :=
+  match m with
+  | MExact c => holds_b rho c
+  | MPoly o l r => Some (cmp_b o (peval rho l) (peval rho r))
+  end.
+Definition point_exact_mids (as_or : bool) (ins : list cond) (mids : list mcond) (p : list (string * Q)) : bool :=
+  let rho := lookup (canon_point p) in
+  match all_some (map (holds_b rho) ins), all_some (map (msat_b rho) mids) with
+  | Some ti, Some tm => if as_or then Bool.eqb (existsb (fun b => b) ti) (existsb (fun b => b) tm)
+                        else Bool.eqb (forallb (fun b => b) ti) (forallb (fun b => b) tm)
+  | _, _ => true
+  end.
+
 (* ------------------------------------------------------------------ end-to-end judgement *)
 (* ev_path (evidence only, never part of the verdict): which part of the proved checker validated the outputs of the case -
    "p" every output condition coefficientwise on polynomial normal forms, "e" some by the structural rounding relation
@@ -176,20 +194,24 @@ Definition view_e2e (entry : string) (d : nat) (conds assum : list string) (out 
             let chk := if String.eqb entry "ineq"
                        then match cs, os with
                             | [c], [o] => match check_under d asm hs c o with
-                                          | Some m => (true, [Some (mid_path o m)])
-                                          | None => (false, [None])
+                                          | Some m => (true, [Some (mid_path o m)], [m])
+                                          | None => (false, [None], [])
                                           end
-                            | [c], [] => (implied (filter is_eq asm) c, [])       (* the inequality was omitted *)
-                            | _, _ => (false, [None])
+                            | [c], [] => (implied (filter is_eq asm) c, [], [])       (* the inequality was omitted *)
+                            | _, _ => (false, [None], [])
                             end
-                       else if is_or then (check_or d hs cs os, or_paths d hs cs os)   (* a disjunction: C13_disjunction_sound *)
+                       else if is_or then (check_or d hs cs os, or_paths d hs cs os, or_mids d hs cs os)   (* C13_disjunction_sound *)
                        else let r := check_pre_tr d hs cs os in       (* fst r = check_pre d hs cs os: C13_traced_pre_same *)
-                            (fst r, out_paths d (snd r) os) in
-            {| ev_parsed := true; ev_check := fst chk;
-               ev_points := if is_or then forallb (point_ok_or d cs os) points
-                            else forallb (point_ok d (cs ++ asm) (os ++ asm)) points;
+                            (fst r, out_paths d (snd r) os, snd r) in
+            let ok := fst (fst chk) in
+            let pth := if ok then path_char (snd (fst chk)) else "-"%char in
+            let structural := Ascii.eqb pth "e" || Ascii.eqb pth "h" in
+            let mids := List.map (fun a => MExact a) asm ++ snd chk in
+            {| ev_parsed := true; ev_check := ok;
+               ev_points := forallb (fun p => (if is_or then point_ok_or d cs os p else point_ok d (cs ++ asm) (os ++ asm) p)
+                                              || (structural && point_exact_mids is_or (cs ++ asm) mids p)) points;
                ev_reader := reader_ok;
-               ev_path := if fst chk then path_char (snd chk) else "-" |}
+               ev_path := pth |}
         | None => bad_view reader_ok
         end
     | _, _ => bad_view reader_ok
@@ -341,7 +363,8 @@ Definition judge_path (c : case) : verdict * ascii :=
       ({| v_agree := obs_eqb String.eqb (glue_model d flag m t)
                              (match out with Returned s => Returned (unesc_s s) | Raised => Raised end)
                      && glue_readback d flag m t
-                     && forallb fl_ok_b (map fst (unesc_map m));     (* the hypothesis of C13_glue_readback *)
+                     && forallb fl_ok_b (map fst (unesc_map m))      (* the hypothesis of C13_glue_readback *)
+                     && (match out with Returned _ => wf_tree t | Raised => true end);   (* the hypothesis of C13_glue (value) *)
           v_ok := true; v_known := false |}, "g"%char)
   | CTrans text given res after =>
       ({| v_agree := trans_ok text given res after; v_ok := true; v_known := false |}, "t"%char)
@@ -362,7 +385,7 @@ Definition run2 (cases : list case) : string :=
 (* debugging aid *)
 Inductive explanation :=
 | XE2E (v : e2e_view) (ins : option (list cond))
-| XGlue (model : obs string) (readback : bool) (table_shape : bool)
+| XGlue (model : obs string) (readback : bool) (table_shape : bool) (tree_wf : bool)
 | XTrans (found : list string) (model_text : string) (model_map : result (list (string * string)))
 | XElim (v : elim_view) (model_extracted : list (option (expr * expr))).
 
@@ -371,6 +394,7 @@ Definition explain (c : case) : explanation :=
   | CE2E entry d conds assum out reader_ok points hints =>
       XE2E (view_e2e entry d conds assum out reader_ok points hints) None
   | CGlue d flag m t out => XGlue (glue_model d flag m t) (glue_readback d flag m t) (forallb fl_ok_b (map fst (unesc_map m)))
+                                  (wf_tree t)
   | CTrans text given res after =>
       XTrans (fluents_in (unesc_s text)) (transform_text (unesc_s text) (unesc_map after))
              (transform_map (unesc_map given) (fluents_in (unesc_s text)))
